@@ -635,3 +635,362 @@ Proof.
   apply filter_all_true. intros p Hp. rewrite rr_zero_radii_contains by assumption.
   apply points_spec; assumption.
 Qed.
+
+(* ------------------------------------------------------------------------------------------ *)
+(* Pixel maps: the colour of a point after a list of writes                                      *)
+(* ------------------------------------------------------------------------------------------ *)
+Lemma point_eqb_eq a b : point_eqb a b = true <-> a = b.
+Proof. destruct a as [ax ay], b as [bx by']. unfold point_eqb. cbn [px py]. split; [intros H; f_equal; lia|intros [= -> ->]; lia]. Qed.
+
+Lemma pix_get_fold (ws : list (point * Z)) p c acc :
+  (forall c', In (p, c') ws -> c' = c) ->
+  fold_left (fun a w => if point_eqb (fst w) p then Some (snd w) else a) ws acc =
+  if existsb (fun w => point_eqb (fst w) p) ws then Some c else acc.
+Proof.
+  revert acc. induction ws as [|[q k] ws IH]; intros acc H; cbn [fold_left existsb fst snd]; [reflexivity|].
+  rewrite IH by (intros; apply H; right; assumption).
+  destruct (point_eqb q p) eqn:E; cbn [orb].
+  - apply point_eqb_eq in E. subst q. rewrite (H k) by (left; reflexivity).
+    destruct (existsb _ ws); reflexivity.
+  - reflexivity.
+Qed.
+
+(* all writes to p carry colour c and there is one: p has colour c *)
+Lemma pix_get_some ws p c :
+  In (p, c) ws -> (forall c', In (p, c') ws -> c' = c) -> pix_get ws p = Some c.
+Proof.
+  intros Hin Hall. unfold pix_get. rewrite (pix_get_fold ws p c None Hall).
+  replace (existsb _ ws) with true; [reflexivity|]. symmetry. apply existsb_exists.
+  exists (p, c). split; [assumption|]. apply point_eqb_eq. reflexivity.
+Qed.
+
+Lemma pix_get_none ws p : (forall c, ~ In (p, c) ws) -> pix_get ws p = None.
+Proof.
+  intros H. unfold pix_get. rewrite (pix_get_fold ws p 0 None) by (intros c' Hc; destruct (H c' Hc)).
+  replace (existsb _ ws) with false; [reflexivity|]. symmetry. apply not_true_is_false. intros E.
+  apply existsb_exists in E. destruct E as ([q k] & Hin & E). apply point_eqb_eq in E. cbn [fst] in E. subst q.
+  exact (H k Hin).
+Qed.
+
+Lemma In_colored c l p c' : In (p, c') (colored c l) <-> c' = c /\ In p l.
+Proof.
+  unfold colored. rewrite in_map_iff. split.
+  - intros (q & [= -> ->] & Hq). auto.
+  - intros [-> H]. exists p. auto.
+Qed.
+
+(* a 1-pixel-high fill_solid area: its points *)
+Definition big : Z := 2 * bound.
+Lemma points_row a b y :
+  - bound <= a -> a < b -> b <= big -> - big <= y <= big ->
+  points (R (P a y) (S (b - a) 1)) = map (fun x => P x y) (range a b).
+Proof.
+  intros Ha Hab Hb Hy. unfold points, is_zero_sized. cbn [sz sw sh].
+  replace (1 =? 0) with false by reflexivity. replace (b - a =? 0) with false by lia. cbn [orb].
+  unfold columns, rows. cbn [tl sz px py sw sh]. unfold big, bound in *.
+  unfold sat_add_i32, sat_u32_to_i32, i32_max, i32_min.
+  replace (Z.max (-2147483648) (Z.min (a + Z.min (b - a) 2147483647) 2147483647)) with b by lia.
+  replace (Z.max (-2147483648) (Z.min (y + Z.min 1 2147483647) 2147483647)) with (y + 1) by lia.
+  rewrite (range_cons y (y + 1)) by lia. rewrite (range_nil (y + 1)) by lia.
+  cbn [flat_map]. apply app_nil_r.
+Qed.
+
+(* a point lies on a scanline segment *)
+Definition covered (s : scanline) (p : point) : Prop :=
+  py p = fst s /\ fst (snd s) <= px p < snd (snd s).
+
+Definition seg_ok (s : scanline) : Prop :=
+  - bound <= fst (snd s) /\ snd (snd s) <= big /\ - big <= fst s <= big.
+
+Lemma In_scanline_draw bb s c p c' :
+  seg_ok s ->
+  (In (p, c') (writes_of_calls bb (scanline_draw s c)) <-> c' = c /\ contains bb p = true /\ covered s p).
+Proof.
+  destruct s as [y [a b]]. unfold seg_ok, covered, scanline_draw. cbn [fst snd]. intros (Ha & Hb & Hy).
+  destruct (a <? b) eqn:E.
+  - unfold writes_of_calls. cbn [flat_map fst snd]. rewrite app_nil_r, In_colored, filter_In.
+    rewrite points_row by lia. rewrite in_map_iff. split.
+    + intros (-> & (x & <- & Hx) & Hbb). apply In_range in Hx. cbn [px py]. auto.
+    + intros (-> & Hbb & Hy' & Hx). repeat split; auto. exists (px p). split; [destruct p as [qx qy]; cbn [px py] in *; subst; reflexivity|apply In_range; lia].
+  - cbn. split; [tauto|]. intros (_ & _ & _ & H). lia.
+Qed.
+
+Lemma In_writes_app bb l1 l2 w :
+  In w (writes_of_calls bb (l1 ++ l2)) <-> In w (writes_of_calls bb l1) \/ In w (writes_of_calls bb l2).
+Proof. unfold writes_of_calls. rewrite flat_map_app, in_app_iff. reflexivity. Qed.
+
+Lemma In_writes_flat_map {A} bb (f : A -> list fill_call) l w :
+  In w (writes_of_calls bb (flat_map f l)) <-> exists a, In a l /\ In w (writes_of_calls bb (f a)).
+Proof.
+  induction l as [|a l IH]; cbn [flat_map].
+  - cbn. split; [tauto|intros (a & [] & _)].
+  - rewrite In_writes_app, IH. split.
+    + intros [H|(a' & H1 & H2)]; [exists a; split; [left; reflexivity|assumption]|exists a'; split; [right; assumption|assumption]].
+    + intros (a' & [<-|H1] & H2); [left; assumption|right; exists a'; auto].
+Qed.
+
+(* ------------------------------------------------------------------------------------------ *)
+(* Scanlines and styled scanlines as sets of covered points                                      *)
+(* ------------------------------------------------------------------------------------------ *)
+Definition rrc_box_ok (c : rrc) : Prop :=
+  - bound <= fst (c_columns c) /\ snd (c_columns c) <= big /\ - big <= fst (c_rows c) /\ snd (c_rows c) <= big.
+
+Lemma In_scanlines c s :
+  In s (scanlines c) <->
+  exists y, in_rng (c_rows c) y = true /\ s = (y, (scan_x_start c y, scan_x_end c y)) /\
+            scan_x_start c y < scan_x_end c y.
+Proof.
+  unfold scanlines. rewrite filter_In, in_map_iff. split.
+  - intros ((y & <- & Hy) & Hne). apply In_range in Hy. cbn [fst snd] in Hne.
+    exists y. unfold in_rng. repeat split; lia.
+  - intros (y & Hy & -> & Hne). unfold in_rng in Hy. cbn [fst snd]. split; [|lia].
+    exists y. split; [reflexivity|apply In_range; lia].
+Qed.
+
+Lemma scanline_seg_ok c s : rrc_wf c -> rrc_box_ok c -> In s (scanlines c) -> seg_ok s.
+Proof.
+  intros W (B1 & B2 & B3 & B4) Hs. apply In_scanlines in Hs. destruct Hs as (y & Hy & -> & Hne).
+  destruct (left_ok_spec c y W) as (Hs & _). destruct (right_ok_spec c y W) as (He & _).
+  unfold in_rng in Hy. unfold seg_ok. cbn [fst snd]. lia.
+Qed.
+
+(* the unstyled scanlines cover exactly contains() *)
+Lemma scanlines_cover c p :
+  rrc_wf c -> ((exists s, In s (scanlines c) /\ covered s p) <-> rrc_contains c p = true).
+Proof.
+  intros W. destruct p as [x y]. rewrite rrc_row_spec by assumption. split.
+  - intros (s & Hs & Hc). apply In_scanlines in Hs. destruct Hs as (y' & Hy & -> & Hne).
+    unfold covered in Hc. cbn [fst snd px py] in Hc. destruct Hc as [-> Hc]. rewrite Hy. cbn [andb]. lia.
+  - intros H. destruct (in_rng (c_rows c) y) eqn:Hy; cbn [andb] in H; [|discriminate].
+    exists (y, (scan_x_start c y, scan_x_end c y)). split.
+    + apply In_scanlines. exists y. repeat split; auto. lia.
+    + unfold covered. cbn [fst snd px py]. lia.
+Qed.
+
+(* one styled scanline: the fill range is exactly the part of the stroke scanline inside the fill area *)
+Lemma styled_segments cf y xs xe :
+  rrc_wf cf -> xs <= xe ->
+  let ss := styled_scanline cf (y, (xs, xe)) in
+  ss_y ss = y /\ ss_stroke ss = (xs, xe) /\
+  xs <= fst (ss_fill ss) /\ fst (ss_fill ss) <= snd (ss_fill ss) /\ snd (ss_fill ss) <= xe /\
+  forall x, xs <= x < xe -> (fst (ss_fill ss) <= x < snd (ss_fill ss) <-> rrc_contains cf (P x y) = true).
+Proof.
+  intros W Hle. cbv zeta. unfold styled_scanline. cbn [fst snd].
+  destruct (in_rng (c_rows cf) y) eqn:Hy.
+  - pose proof (find_range_spec (fun x => rrc_contains cf (P x y)) xs xe) as Hf.
+    pose proof (rfind_range_spec (fun x => rrc_contains cf (P x y)) xs xe) as Hr.
+    destruct (find (fun x => rrc_contains cf (P x y)) (range xs xe)) as [f0|]; cbv beta in Hf.
+    + destruct Hf as (F1 & F2 & F3).
+      destruct (rfind (fun x => rrc_contains cf (P x y)) (range xs xe)) as [l0|]; cbv beta in Hr.
+      * destruct Hr as (R1 & R2 & R3). unfold ss_new. cbn [ss_y ss_stroke ss_fill fst snd].
+        assert (f0 <= l0) as Hfl.
+        { destruct (Z_le_gt_dec f0 l0); [assumption|]. rewrite R3 in F2 by lia. discriminate. }
+        split; [reflexivity|]. split; [reflexivity|]. split; [lia|]. split; [lia|]. split; [lia|].
+        intros x Hx. split.
+        -- intros Hin. pose proof F2 as F2'. pose proof R2 as R2'.
+           rewrite rrc_row_spec in F2', R2' |- * by assumption. rewrite Hy in *. cbn [andb] in *. lia.
+        -- intros Hc. split.
+           ++ destruct (Z_lt_le_dec x f0) as [Hb|Hb]; [rewrite F3 in Hc by lia; discriminate|lia].
+           ++ destruct (Z_lt_le_dec l0 x) as [Hb|Hb]; [rewrite R3 in Hc by lia; discriminate|lia].
+      * rewrite Hr in F2 by lia. discriminate.
+    + unfold ss_new. cbn [ss_y ss_stroke ss_fill fst snd].
+      split; [reflexivity|]. split; [reflexivity|]. split; [lia|]. split; [lia|]. split; [lia|].
+      intros x Hx. split; [lia|]. intros Hc. rewrite Hf in Hc by lia. discriminate.
+  - unfold ss_new. cbn [ss_y ss_stroke ss_fill fst snd].
+    split; [reflexivity|]. split; [reflexivity|]. split; [lia|]. split; [lia|]. split; [lia|].
+    intros x Hx. split; [lia|]. intros Hc. rewrite rrc_row_spec, Hy in Hc by assumption. discriminate.
+Qed.
+
+Lemma styled_cover_fill cs cf p :
+  rrc_wf cs -> rrc_wf cf ->
+  ((exists s, In s (scanlines cs) /\ covered (ss_fill_line (styled_scanline cf s)) p) <->
+   rrc_contains cs p = true /\ rrc_contains cf p = true).
+Proof.
+  intros Ws Wf. destruct p as [x y]. split.
+  - intros (s & Hs & Hc). pose proof Hs as Hs'. apply In_scanlines in Hs. destruct Hs as (y' & Hy & -> & Hne).
+    pose proof (styled_segments cf y' _ _ Wf (Z.lt_le_incl _ _ Hne)) as S. cbv zeta in S.
+    destruct S as (Sy & Sst & S1 & S2 & S3 & S4).
+    unfold covered, ss_fill_line in Hc. cbn [fst snd px py] in Hc. rewrite Sy in Hc. destruct Hc as [-> Hc].
+    split.
+    + rewrite rrc_row_spec, Hy by assumption. cbn [andb]. lia.
+    + apply S4; lia.
+  - intros [Hcs Hcf]. pose proof Hcs as Hcs'. rewrite rrc_row_spec in Hcs' by assumption.
+    destruct (in_rng (c_rows cs) y) eqn:Hy; cbn [andb] in Hcs'; [|discriminate].
+    exists (y, (scan_x_start cs y, scan_x_end cs y)). split.
+    + apply In_scanlines. exists y. repeat split; auto. lia.
+    + pose proof (styled_segments cf y (scan_x_start cs y) (scan_x_end cs y) Wf ltac:(lia)) as S. cbv zeta in S.
+      destruct S as (Sy & Sst & S1 & S2 & S3 & S4).
+      unfold covered, ss_fill_line. cbn [fst snd px py]. rewrite Sy. split; [reflexivity|]. apply S4; [lia|assumption].
+Qed.
+
+Lemma styled_cover_stroke cs cf p :
+  rrc_wf cs -> rrc_wf cf ->
+  ((exists s, In s (scanlines cs) /\
+      (covered (ss_stroke_left (styled_scanline cf s)) p \/ covered (ss_stroke_right (styled_scanline cf s)) p)) <->
+   rrc_contains cs p = true /\ rrc_contains cf p = false).
+Proof.
+  intros Ws Wf. destruct p as [x y]. split.
+  - intros (s & Hs & Hc). pose proof Hs as Hs'. apply In_scanlines in Hs. destruct Hs as (y' & Hy & -> & Hne).
+    pose proof (styled_segments cf y' _ _ Wf (Z.lt_le_incl _ _ Hne)) as S. cbv zeta in S.
+    destruct S as (Sy & Sst & S1 & S2 & S3 & S4).
+    unfold covered, ss_stroke_left, ss_stroke_right in Hc. cbn [fst snd px py] in Hc. rewrite Sy, Sst in Hc. cbn [fst snd] in Hc.
+    assert (y = y' /\ scan_x_start cs y' <= x < scan_x_end cs y' /\
+            ~ (fst (ss_fill (styled_scanline cf (y', (scan_x_start cs y', scan_x_end cs y')))) <= x <
+               snd (ss_fill (styled_scanline cf (y', (scan_x_start cs y', scan_x_end cs y')))))) as (-> & Hx & Hn) by lia.
+    split.
+    + rewrite rrc_row_spec, Hy by assumption. cbn [andb]. lia.
+    + apply not_true_is_false. intros Hcf. apply Hn, S4; assumption.
+  - intros [Hcs Hcf]. pose proof Hcs as Hcs'. rewrite rrc_row_spec in Hcs' by assumption.
+    destruct (in_rng (c_rows cs) y) eqn:Hy; cbn [andb] in Hcs'; [|discriminate].
+    exists (y, (scan_x_start cs y, scan_x_end cs y)). split.
+    + apply In_scanlines. exists y. repeat split; auto. lia.
+    + pose proof (styled_segments cf y (scan_x_start cs y) (scan_x_end cs y) Wf ltac:(lia)) as S. cbv zeta in S.
+      destruct S as (Sy & Sst & S1 & S2 & S3 & S4).
+      unfold covered, ss_stroke_left, ss_stroke_right. cbn [fst snd px py]. rewrite Sy, Sst. cbn [fst snd].
+      assert (~ (fst (ss_fill (styled_scanline cf (y, (scan_x_start cs y, scan_x_end cs y)))) <= x <
+                 snd (ss_fill (styled_scanline cf (y, (scan_x_start cs y, scan_x_end cs y)))))) as Hn.
+      { intros Hin. apply S4 in Hin; [|lia]. rewrite Hin in Hcf. discriminate. }
+      lia.
+Qed.
+
+Lemma styled_seg_ok cs cf s :
+  rrc_wf cs -> rrc_wf cf -> rrc_box_ok cs -> In s (scanlines cs) ->
+  seg_ok (ss_stroke_left (styled_scanline cf s)) /\ seg_ok (ss_fill_line (styled_scanline cf s)) /\
+  seg_ok (ss_stroke_right (styled_scanline cf s)).
+Proof.
+  intros Ws Wf B Hs. pose proof (scanline_seg_ok cs s Ws B Hs) as Hok.
+  apply In_scanlines in Hs. destruct Hs as (y & Hy & -> & Hne).
+  pose proof (styled_segments cf y _ _ Wf (Z.lt_le_incl _ _ Hne)) as S. cbv zeta in S.
+  destruct S as (Sy & Sst & S1 & S2 & S3 & S4).
+  unfold seg_ok, ss_stroke_left, ss_fill_line, ss_stroke_right in *. cbn [fst snd] in *.
+  rewrite Sy, Sst. cbn [fst snd]. lia.
+Qed.
+
+(* ------------------------------------------------------------------------------------------ *)
+(* C06 / C01(b): the image of draw_styled and of pixels()                                        *)
+(* ------------------------------------------------------------------------------------------ *)
+Lemma In_writes_styled bb cs cf (f : sscan -> list fill_call) w :
+  In w (writes_of_calls bb (flat_map f (map (styled_scanline cf) (scanlines cs)))) <->
+  exists s, In s (scanlines cs) /\ In w (writes_of_calls bb (f (styled_scanline cf s))).
+Proof.
+  rewrite In_writes_flat_map. split.
+  - intros (ss & Hss & Hw). apply in_map_iff in Hss. destruct Hss as (s & <- & Hs). exists s. auto.
+  - intros (s & Hs & Hw). exists (styled_scanline cf s). split; [apply in_map; assumption|assumption].
+Qed.
+
+Lemma In_draw_stroke bb cs cf sc p c' :
+  rrc_wf cs -> rrc_wf cf -> rrc_box_ok cs ->
+  (In (p, c') (writes_of_calls bb (flat_map (fun s => ss_draw_stroke s sc) (map (styled_scanline cf) (scanlines cs)))) <->
+   c' = sc /\ contains bb p = true /\ rrc_contains cs p = true /\ rrc_contains cf p = false).
+Proof.
+  intros Ws Wf B. rewrite In_writes_styled. rewrite <- (styled_cover_stroke cs cf p Ws Wf). split.
+  - intros (s & Hs & Hw). destruct (styled_seg_ok cs cf s Ws Wf B Hs) as (O1 & O2 & O3).
+    unfold ss_draw_stroke in Hw. rewrite In_writes_app, !In_scanline_draw in Hw by assumption.
+    destruct Hw as [(-> & Hb & Hc)|(-> & Hb & Hc)]; (repeat split; auto; exists s; auto).
+  - intros (-> & Hb & s & Hs & Hc). exists s. split; [assumption|].
+    destruct (styled_seg_ok cs cf s Ws Wf B Hs) as (O1 & O2 & O3).
+    unfold ss_draw_stroke. rewrite In_writes_app, !In_scanline_draw by assumption. tauto.
+Qed.
+
+Lemma In_draw_stroke_fill bb cs cf sc fc p c' :
+  rrc_wf cs -> rrc_wf cf -> rrc_box_ok cs ->
+  (In (p, c') (writes_of_calls bb (flat_map (fun s => ss_draw_stroke_and_fill s sc fc) (map (styled_scanline cf) (scanlines cs)))) <->
+   contains bb p = true /\ rrc_contains cs p = true /\
+   ((c' = sc /\ rrc_contains cf p = false) \/ (c' = fc /\ rrc_contains cf p = true))).
+Proof.
+  intros Ws Wf B. rewrite In_writes_styled. split.
+  - intros (s & Hs & Hw). destruct (styled_seg_ok cs cf s Ws Wf B Hs) as (O1 & O2 & O3).
+    unfold ss_draw_stroke_and_fill in Hw. rewrite !In_writes_app, !In_scanline_draw in Hw by assumption.
+    destruct Hw as [(-> & Hb & Hc)|[(-> & Hb & Hc)|(-> & Hb & Hc)]].
+    + assert (rrc_contains cs p = true /\ rrc_contains cf p = false) as [H1 H2]
+        by (apply (styled_cover_stroke cs cf p Ws Wf); exists s; auto). auto.
+    + assert (rrc_contains cs p = true /\ rrc_contains cf p = true) as [H1 H2]
+        by (apply (styled_cover_fill cs cf p Ws Wf); exists s; auto). auto.
+    + assert (rrc_contains cs p = true /\ rrc_contains cf p = false) as [H1 H2]
+        by (apply (styled_cover_stroke cs cf p Ws Wf); exists s; auto). auto.
+  - intros (Hb & Hcs & [[-> Hcf]|[-> Hcf]]).
+    + destruct (proj2 (styled_cover_stroke cs cf p Ws Wf) (conj Hcs Hcf)) as (s & Hs & Hc).
+      exists s. split; [assumption|]. destruct (styled_seg_ok cs cf s Ws Wf B Hs) as (O1 & O2 & O3).
+      unfold ss_draw_stroke_and_fill. rewrite !In_writes_app, !In_scanline_draw by assumption. tauto.
+    + destruct (proj2 (styled_cover_fill cs cf p Ws Wf) (conj Hcs Hcf)) as (s & Hs & Hc).
+      exists s. split; [assumption|]. destruct (styled_seg_ok cs cf s Ws Wf B Hs) as (O1 & O2 & O3).
+      unfold ss_draw_stroke_and_fill. rewrite !In_writes_app, !In_scanline_draw by assumption. tauto.
+Qed.
+
+Lemma In_draw_fill bb cf fc p c' :
+  rrc_wf cf -> rrc_box_ok cf ->
+  (In (p, c') (writes_of_calls bb (flat_map (fun s => scanline_draw s fc) (scanlines cf))) <->
+   c' = fc /\ contains bb p = true /\ rrc_contains cf p = true).
+Proof.
+  intros Wf B. rewrite In_writes_flat_map. rewrite <- (scanlines_cover cf p Wf). split.
+  - intros (s & Hs & Hw). rewrite In_scanline_draw in Hw by (eapply scanline_seg_ok; eassumption).
+    destruct Hw as (-> & Hb & Hc). repeat split; auto. exists s; auto.
+  - intros (-> & Hb & s & Hs & Hc). exists s. split; [assumption|].
+    rewrite In_scanline_draw by (eapply scanline_seg_ok; eassumption). auto.
+Qed.
+
+(* what draw_styled paints, in terms of contains() of the two areas (no assumption relating the areas) *)
+Definition spec_draw (st : style) (sa fa : point -> bool) (p : point) : option Z :=
+  match effective_stroke_color st with
+  | Some sc => if sa p then (if fa p then fill_color st else Some sc) else None
+  | None => if fa p then fill_color st else None
+  end.
+(* ... and what pixels() yields *)
+Definition spec_pixels (st : style) (sa fa : point -> bool) (p : point) : option Z :=
+  if sa p then (if fa p then fill_color st else stroke_color st) else None.
+(* the property C06 *)
+Definition spec_c06 (st : style) (sa fa : point -> bool) (p : point) : option Z :=
+  if fa p then fill_color st
+  else if sa p && (0 <? stroke_width st) then stroke_color st else None.
+
+Definition styled_ok (r : rrect) (st : style) : Prop :=
+  rr_ok (rr_stroke_area r st) /\ rr_ok (rr_fill_area r st).
+
+Lemma rr_ok_box r : rr_ok r -> rrc_box_ok (rrc_new r).
+Proof.
+  intros Hok. pose proof (rrc_new_fields r Hok) as F. cbv zeta in F. destruct F as (Frows & Fcols & _).
+  destruct Hok as [[Hp Hs] _]. unfold point_ok, size_ok in *. unfold rrc_box_ok. rewrite Frows, Fcols.
+  cbn [fst snd]. unfold big, bound in *. lia.
+Qed.
+
+Theorem rr_draw_pixmap r st bb p :
+  styled_ok r st ->
+  pix_get (writes_of_calls bb (rr_draw r st)) p =
+  if contains bb p
+  then spec_draw st (rr_contains (rr_stroke_area r st)) (rr_contains (rr_fill_area r st)) p
+  else None.
+Proof.
+  intros [Hs Hf].
+  pose proof (rrc_new_wf _ Hs) as Ws. pose proof (rrc_new_wf _ Hf) as Wf.
+  pose proof (rr_ok_box _ Hs) as Bs. pose proof (rr_ok_box _ Hf) as Bf.
+  unfold rr_draw, spec_draw, rr_contains, styled_scanlines.
+  set (cs := rrc_new (rr_stroke_area r st)) in *. set (cf := rrc_new (rr_fill_area r st)) in *.
+  destruct (effective_stroke_color st) as [sc|]; destruct (fill_color st) as [fc|].
+  - (* stroke and fill *)
+    destruct (contains bb p) eqn:Hb; [destruct (rrc_contains cs p) eqn:Hcs; [destruct (rrc_contains cf p) eqn:Hcf|]|].
+    + apply pix_get_some.
+      * apply In_draw_stroke_fill; auto.
+      * intros c' H. apply In_draw_stroke_fill in H; auto. destruct H as (_ & _ & [[_ H]|[H _]]); congruence.
+    + apply pix_get_some.
+      * apply In_draw_stroke_fill; auto.
+      * intros c' H. apply In_draw_stroke_fill in H; auto. destruct H as (_ & _ & [[H _]|[_ H]]); congruence.
+    + apply pix_get_none. intros c' H. apply In_draw_stroke_fill in H; auto. destruct H as (_ & H & _). congruence.
+    + apply pix_get_none. intros c' H. apply In_draw_stroke_fill in H; auto. destruct H as (H & _). congruence.
+  - (* stroke only *)
+    destruct (contains bb p) eqn:Hb; [destruct (rrc_contains cs p) eqn:Hcs; [destruct (rrc_contains cf p) eqn:Hcf|]|].
+    + apply pix_get_none. intros c' H. apply In_draw_stroke in H; auto. destruct H as (_ & _ & _ & H). congruence.
+    + apply pix_get_some.
+      * apply In_draw_stroke; auto.
+      * intros c' H. apply In_draw_stroke in H; auto. tauto.
+    + apply pix_get_none. intros c' H. apply In_draw_stroke in H; auto. destruct H as (_ & _ & H & _). congruence.
+    + apply pix_get_none. intros c' H. apply In_draw_stroke in H; auto. destruct H as (_ & H & _). congruence.
+  - (* fill only *)
+    destruct (contains bb p) eqn:Hb; [destruct (rrc_contains cf p) eqn:Hcf|].
+    + apply pix_get_some.
+      * apply In_draw_fill; auto.
+      * intros c' H. apply In_draw_fill in H; auto. tauto.
+    + apply pix_get_none. intros c' H. apply In_draw_fill in H; auto. destruct H as (_ & _ & H). congruence.
+    + apply pix_get_none. intros c' H. apply In_draw_fill in H; auto. destruct H as (_ & H & _). congruence.
+  - (* transparent *)
+    cbn. destruct (contains bb p); [destruct (rrc_contains cf p)|]; reflexivity.
+Qed.
